@@ -138,8 +138,11 @@ func sequentialHistory(o *kit.Out, r *kit.Rand) {
 	nt := int(r.Range(1, 30))
 	for k := 0; k < nt; k++ {
 		sz := int(kit.Pick(r, r.Range(0, int64(3*nw)), 1, int64(nw), int64(10*nw)))
+		if r.Chance(8) {
+			sz = -int(r.Range(1, 5)) // a negative tick requests nothing (and supersedes what is pending)
+		}
 		pool.Trigger(wctx, sz)
-		requested += int64(sz)
+		requested += int64(max(sz, 0))
 		if r.Chance(60) {
 			time.Sleep(time.Duration(r.Range(0, 800)) * time.Microsecond)
 		}
